@@ -75,3 +75,38 @@ theorem count_eq_zero_of_not_mem (c : Char) (s : Str) (h : c ∉ s) : countC c s
   unfold countC; exact List.count_eq_zero_of_not_mem h
 
 end Reamber.Osu
+
+namespace Reamber.Osu
+
+/-! ### `_num`: integral values as integers, the others through `repr` -/
+
+theorem isWs_space : isWs ' ' = true := by decide +kernel
+
+theorem strip_cons_space (s : Str) : strip (' ' :: s) = strip s := by
+  unfold strip lstrip
+  rw [List.dropWhile_cons, isWs_space]; rfl
+
+theorem readInt_cons_space (s : Str) : readInt (' ' :: s) = readInt s := by
+  unfold readInt; rw [strip_cons_space]
+
+theorem readFloat_cons_space (s : Str) : readFloat (' ' :: s) = readFloat s := by
+  unfold readFloat; rw [strip_cons_space]
+
+theorem tok_num_int (R : Render) (n : Int) : R.tok (.num (n : Rat)) = showInt n := by
+  simp [Render.tok]
+
+theorem tok_num_of_den (R : Render) (q : Rat) : R.tok (.num q) = if q.den = 1 then showInt q.num else R.repr q := rfl
+
+/-- **what `_num` writes reads back exactly**: an integral value for every renderer (the model prints the integer
+itself), any other value under the `repr` read-back assumption for that value -/
+theorem readFloat_tok_num (R : Render) (q : Rat) (hr : q.den ≠ 1 → readFloat (R.repr q) = .ok q) :
+    readFloat (R.tok (.num q)) = .ok q := by
+  rw [tok_num_of_den]
+  by_cases h : q.den = 1
+  · rw [if_pos h, readFloat_showInt, Rat.coe_int_num_of_den_eq_one h]
+  · rw [if_neg h]; exact hr h
+
+theorem readInt_tok_num (R : Render) (n : Int) : readInt (R.tok (.num (n : Rat))) = .ok n := by
+  rw [tok_num_int, readInt_showInt]
+
+end Reamber.Osu
